@@ -1165,7 +1165,12 @@ class Evaluator:
             st.store.pop(loc, None)
             yield st
             return
+        persistent = (v.get('storageClass') == 'static' or v.get('tls')) and not v.get('constexpr')
         for st2, t2 in self.rv(init[0], st):
+            if persistent and not (isinstance(t2, tuple) and t2 and t2[0] in ('int', 'str', 'float', 'bool', 'enum')):
+                # a function-local static is initialised by the first call only: what it holds now is whatever earlier calls
+                # (on any object) left there
+                t2 = ('persistent', v.get('name'), v['id'])
             st2.env[v['id']] = loc
             st2.store[loc] = t2
             st2.ev('lwr', loc, t2, site_of(v, st2), 'decl')
